@@ -64,7 +64,7 @@ class Config:
         self.params = ['p%d' % i for i in range(self.nparams)]
         self.blobs = rng.random() < 0.5
         self.nchains = rng.choice([1, 1, 2])
-        self.ntemps = rng.choice([2, 3, 3, 4, 5]) if self.pt else 1
+        self.ntemps = rng.choice([1, 2, 3, 3, 4, 5, 2, 3]) if self.pt else 1
         self.si = rng.choice([1, 1, 2, 3, 4]) if self.pt else 1
         self.betas = sorted([1.0] + [round(rng.uniform(0.01, 0.95), 3) for _ in range(self.ntemps - 2)] +
                             ([rng.choice([0.0, 0.05])] if self.ntemps > 1 else []), reverse=True)
